@@ -33,7 +33,7 @@ def make_resolver_class(table):
     return SimResolver
 
 
-def run_app(argv, table, before_run=None, log_path=None, stall_watch=None, tty=False):
+def run_app(argv, table, before_run=None, log_path=None, stall_watch=None, tty=False, pipeline_concurrency=None):
     '''Returns dict(exit_status, crashed(bool), log_text).
 
     stall_watch = (progress function, seconds): a crawl that shows no progress (the function's value does not change) for
@@ -62,6 +62,10 @@ def run_app(argv, table, before_run=None, log_path=None, stall_watch=None, tty=F
         builder = Builder(args, unit_test=True)
         builder.factory.class_map['Resolver'] = make_resolver_class(table)
         app = builder.build()
+        if pipeline_concurrency:
+            # this tree parses --concurrent but never hands it to the pipelines: concurrency is set the way its plug-ins set it
+            # (PipelineSeries.concurrency, see testing/integration/sample_user_scripts/extensive.plugin.py)
+            builder.factory['PipelineSeries'].concurrency = pipeline_concurrency
         if before_run:
             before_run(app, builder)
         if stall_watch:
